@@ -836,13 +836,97 @@ Fixpoint g_update (path : list bytes) (f : gval -> option gval) (g : gval) : opt
       end
   end.
 
+(* ---- UnmarshalBinary on an object of the graph: the receiver's state ALSO after a rejection ----
+   [dec_props_st] is objectBase.unmarshal returning what it leaves in v.properties at every exit:
+   on success and at every rejection point (name cut short, Discovery error for an unsupported /
+   invalid marker, the value's own UnmarshalBinary failing, missing end marker = input exhausted)
+   the pairs completed so far stay in the receiver; the value being decoded when the error
+   occurred was never appended (pushOne returns before the append), however far it got.
+   [g_unmarshal]: scalars are unchanged by a failed call; a container keeps its old state when the
+   header is rejected (too short, wrong marker); otherwise the count field is stored from the
+   header, the properties are reset, and the loop runs -- so after a rejection inside the
+   elements a StrictArray holds the header count together with fewer elements. *)
+Fixpoint dec_props_st (fuel : nat) (eof : bool) (maxn : N) (p : bytes)
+                      (racc : props) (n : N) (sz : N) {struct fuel} : props * res N :=
+  match fuel with
+  | O => (rev racc, Err E_FUEL)
+  | S f =>
+    if negb eof && (maxn <=? n) then (rev racc, Ok sz)
+    else
+      match um_utf8 p with
+      | Ok (k, p1) =>
+          if eof && is_eof k p1 then (rev racc, Ok sz)
+          else
+            match dec f p1 with
+            | Ok (v, vs) =>
+                match takeN vs p1 with
+                | Some (_, p2) =>
+                    dec_props_st f eof maxn p2 ((k, v) :: racc) (N.succ n) (sz + (utf8_size k + vs))
+                | None => (rev racc, Panic 1)
+                end
+            | Err e => (rev racc, Err e)
+            | Panic s => (rev racc, Panic s)
+            end
+      | Err e => (rev racc, Err e)
+      | Panic s => (rev racc, Panic s)
+      end
+  end.
+
+Definition res_add (hdr : N) (r : res N) : res N :=
+  match r with Ok sz => Ok (hdr + sz) | Err e => Err e | Panic s => Panic s end.
+
+Definition g_unmarshal_cont (k c : N) (ps : gprops) (fuel : nat) (p : bytes) : gval * res N :=
+  let same := GCont k c ps in
+  if k =? mObject then
+    match p with
+    | [] => (same, Err E_SHORT)
+    | m :: r =>
+        if negb (m =? mObject) then (same, Err E_ILLEGAL)
+        else let '(ps', st) := dec_props_st fuel true 0 r [] 0 0 in        (* v.reset(); v.unmarshal *)
+             (GCont k c (g_of_props true ps'), res_add (1 + 3) st)
+    end
+  else if k =? mEcmaArray then
+    match p with
+    | m :: a :: b :: c0 :: d :: r' =>
+        if negb (m =? mEcmaArray) then (same, Err E_ILLEGAL)
+        else let '(ps', st) := dec_props_st fuel true 0 r' [] 0 0 in
+             (GCont k (ube4 a b c0 d) (g_of_props true ps'), res_add (1 + 4 + 3) st)
+    | _ => (same, Err E_SHORT)
+    end
+  else
+    match p with
+    | m :: a :: b :: c0 :: d :: r' =>
+        if negb (m =? mStrictArray) then (same, Err E_ILLEGAL)
+        else let count := ube4 a b c0 d in
+             if count =? 0 then (GCont k count [], Ok (1 + 4))
+             else let '(ps', st) := dec_props_st fuel false count r' [] 0 0 in
+                  (GCont k count (g_of_props true ps'), res_add (1 + 4) st)
+    | _ => (same, Err E_SHORT)
+    end.
+
+Definition g_unmarshal (g : gval) (fuel : nat) (p : bytes) : gval * res N :=
+  match g with
+  | GCont k c ps => g_unmarshal_cont k c ps fuel p
+  | GLeaf v =>
+      match g_of_amf false v with
+      | GCont k c ps => g_unmarshal_cont k c ps fuel p      (* a container given as a plain value *)
+      | GLeaf _ =>
+          match um_into v fuel p with
+          | Ok (v', n) => (GLeaf v', Ok n)
+          | Err e => (GLeaf v, Err e)                        (* scalars: *v untouched on error *)
+          | Panic s => (GLeaf v, Panic s)
+          end
+      end
+  end.
+
 Inductive hop : Type :=
 | HNew (kind : N)                                  (* a fresh container becomes the root *)
 | HSet (path : list bytes) (key : bytes) (x : gval) (* Set(key, x) on the container at path *)
 | HMarshal (path : list bytes)                     (* MarshalBinary of the object at path *)
 | HUnmarshal (kind : N) (b : bytes)                (* New<kind>().UnmarshalBinary(b) becomes the root *)
 | HGet (path : list bytes) (key : bytes)
-| HInspect (path : list bytes).
+| HInspect (path : list bytes)
+| HDecodeInto (path : list bytes) (b : bytes).      (* UnmarshalBinary(b) ON the object at path *)
 
 Definition is_cont_kind (k : N) : bool := (k =? mObject) || (k =? mEcmaArray) || (k =? mStrictArray).
 
@@ -898,6 +982,21 @@ Definition h_step (g : gval) (op : hop) : gval * sx :=
       | Some (GCont k c ps) => (g, s_ok [sN k; sN c; sN (gplen ps)])
       | _ => (g, SL [SZ 1])
       end
+  | HDecodeInto path b =>
+      match g_at path g with
+      | Some sub =>
+          let '(sub', r) := g_unmarshal sub (dec_fuel b) b in
+          match g_update path (fun _ => Some sub') g with
+          | Some g' =>
+              (g', match r with
+                   | Ok n => s_ok [sx_of_amf (g_view sub'); sN n]
+                   | Err e => s_err e
+                   | Panic _ => s_panic
+                   end)
+          | None => (g, SL [SZ 3])
+          end
+      | None => (g, SL [SZ 3])
+      end
   end.
 
 Fixpoint h_run (g : gval) (ops : list hop) : gval :=
@@ -909,7 +1008,7 @@ Fixpoint h_obs (g : gval) (ops : list hop) : list sx :=
 Definition g0 : gval := GCont mObject 0 [].
 
 (* operations as s-expressions: (0 kind) (1 (xkey..) xkey tree) (2 (xkey..)) (3 kind xbytes)
-   (4 (xkey..) xkey) (5 (xkey..)) *)
+   (4 (xkey..) xkey) (5 (xkey..)) (6 (xkey..) xbytes) *)
 Fixpoint path_of_sx (l : list sx) : option (list bytes) :=
   match l with
   | [] => Some []
@@ -929,6 +1028,7 @@ Definition hop_of_sx (s : sx) : option hop :=
   | SL [SZ 3%Z; SZ k; SB b] => Some (HUnmarshal (Z.to_N k) b)
   | SL [SZ 4%Z; SL p; SB key] => match path_of_sx p with Some path => Some (HGet path key) | None => None end
   | SL [SZ 5%Z; SL p] => match path_of_sx p with Some path => Some (HInspect path) | None => None end
+  | SL [SZ 6%Z; SL p; SB b] => match path_of_sx p with Some path => Some (HDecodeInto path b) | None => None end
   | _ => None
   end.
 
@@ -954,7 +1054,9 @@ Fixpoint hops_of_sx (l : list sx) : option (list hop) :=
               (0 kind) new root -> (0);  (1 path key tree) Set -> (0) | (1);
               (2 path) MarshalBinary -> (0 xbytes size);  (3 kind xbytes) typed Unmarshal into a
               fresh container, which becomes the root -> (0 tree size) | (1 code);
-              (4 path key) Get -> (0 tree) | (1);  (5 path) -> (0 kind count nprops)
+              (4 path key) Get -> (0 tree) | (1);  (5 path) -> (0 kind count nprops);
+              (6 path xbytes) UnmarshalBinary ON the object at path (it keeps what the code leaves
+              in it, also after a rejection) -> (0 tree size) | (1 code) | (3) no such object
               -> the list of the per-operation observations *)
 Definition run_c05 (c : sx) : sx :=
   match c with
@@ -995,7 +1097,10 @@ Definition spec_decode (p : bytes) : option (amf * bytes) := spec_dec (S (length
    (0 tree)   literal tree: library bytes, reference bytes, library decoding of the reference bytes,
               reference decoding of the library bytes
               -> (0 xlib xref <lib decode obs> <spec decode obs>)
-   (1 xbytes) both decoders on arbitrary bytes -> (0 <lib decode obs> <spec decode obs>) *)
+   (1 xbytes) both decoders on arbitrary bytes -> (0 <lib decode obs> <spec decode obs>)
+   (2 kind xbytes) UnmarshalBinary(bytes) into a fresh container of that kind -- possibly REJECTED
+              part-way --, then MarshalBinary of that receiver and the reference decoding of the
+              result -> (0 <(0 size) | (1 code)> xlib <spec decode obs>) *)
 Definition run_c06 (c : sx) : sx :=
   match c with
   | SL [SZ 0%Z; t] =>
@@ -1007,5 +1112,13 @@ Definition run_c06 (c : sx) : sx :=
       | None => bad_case
       end
   | SL [SZ 1%Z; SB b] => s_ok [obs_res (decode_fast b) false; obs_spec (spec_decode b)]
+  | SL [SZ 2%Z; SZ k; SB b] =>
+      let kind := Z.to_N k in
+      if is_cont_kind kind then
+        let '(g, r) := g_unmarshal (GCont kind 0 []) (dec_fuel b) b in
+        let lb := fst (g_marshal g) in
+        s_ok [match r with Ok n => s_ok [sN n] | Err e => s_err e | Panic _ => s_panic end;
+              SB lb; obs_spec (spec_decode lb)]
+      else bad_case
   | _ => bad_case
   end.
